@@ -9,152 +9,8 @@ from framework import Corr, Oracle
 PROP_ID = "C01"
 DESIGN_REF = "6/C01"
 
-_UNIS: dict[str, B.Universe] = {}
-
-
-def uni_of(a) -> B.Universe:
-    key = a.get("_uni")
-    if key in _UNIS:
-        return _UNIS[key]
-    u = B.Universe(a["desc"])
-    _UNIS[u.modname] = u
-    a["_uni"] = u.modname
-    return u
-
-
-def new_universe(rng, features=None):
-    for _ in range(60):
-        desc = G.gen_universe_desc(rng, features)
-        if not G.single_parent_namespace(desc):
-            continue
-        try:
-            u = B.Universe(desc)
-            ctx = u.export_ctx()
-        except Exception:  # noqa: BLE001  (a description the real builder rejects: not our subject here)
-            continue
-        _UNIS[u.modname] = u
-        return u, desc, ctx
-    raise RuntimeError("could not build a universe")
-
-
-CONFIGS = [
-    {},
-    {"fail_on_unknown_properties": False},
-    {"fail_on_unknown_attributes": True},
-    {"fail_on_converter_warnings": True},
-    {"fail_on_unknown_properties": False, "fail_on_unknown_attributes": True, "fail_on_converter_warnings": True},
-]
-
-
-def n_cases(tier, quick, thorough):
-    return quick if tier == "quick" else thorough
-
-
-# ------------------------------------------------------------------ bind.generate
-def gen_generate(rng, tier):
-    for _ in range(n_cases(tier, 60, 1500)):
-        u, desc, ctx = new_universe(rng)
-        for _ in range(6):
-            try:
-                obj = G.gen_instance(rng, u, "Root")
-            except Exception:  # noqa: BLE001
-                continue
-            yield {"ctx": ctx, "value": u.to_val(obj), "ignore_default_attributes": rng.random() < 0.3, "desc": desc, "_uni": u.modname}
-
-
-def impl_generate(a):
-    u = uni_of(a)
-    return B.real_generate(u, a["value"], a.get("ignore_default_attributes", False))
-
-
-def unsupported(o):
-    return isinstance(o, dict) and "unsupported" in o
-
-
-def cmp_skip_unsupported(mo, io, a):
-    if unsupported(mo):
-        return True
-    return mo == io
-
-
-# ------------------------------------------------------------------ bind.parse
-def documents(rng, tier, n_uni, per_uni, mutate=True):
-    """(universe, ctx, desc, tree) from real serialisation read back by lxml, plus faults"""
-    for _ in range(n_uni):
-        u, desc, ctx = new_universe(rng)
-        for _ in range(per_uni):
-            try:
-                obj = G.gen_instance(rng, u, "Root")
-                xml = G.real_serialize(u, obj, writer=rng.choice(["native", "lxml"]))
-                tree = G.xml_tree(xml.encode())
-            except Exception:  # noqa: BLE001
-                continue
-            yield u, ctx, desc, tree, "valid"
-            if mutate:
-                for _ in range(3):
-                    kind, t2 = G.mutate_tree(rng, tree)
-                    yield u, ctx, desc, t2, kind
-
-
-def gen_parse(rng, tier):
-    for u, ctx, desc, tree, kind in documents(rng, tier, n_cases(tier, 50, 1200), 4):
-        yield {"ctx": ctx, "tree": tree, "clazz": "Root", "config": rng.choice(CONFIGS), "desc": desc, "_uni": u.modname, "_kind": kind}
-
-
-def impl_parse(a):
-    return B.real_parse_tree(uni_of(a), a["clazz"], a["tree"], a["config"])
-
-
-def cmp_parse(mo, io, a):
-    if unsupported(mo):
-        return True
-    if "ok" in mo and "ok" in io:
-        u = uni_of(a)
-        return u.fill_defaults(mo["ok"]["value"]) == io["ok"]["value"] and mo["ok"]["warnings"] == io["ok"]["warnings"]
-    return mo == io
-
-
-def classify_parse(a, o):
-    k = a.get("_kind", "?")
-    r = "ok" if "ok" in o else o.get("err", "unsupported")
-    return f"{k}:{r}"
-
-
-# ------------------------------------------------------------------ end to end
-def gen_roundtrip(rng, tier):
-    for _ in range(n_cases(tier, 50, 1200)):
-        u, desc, ctx = new_universe(rng)
-        for _ in range(4):
-            try:
-                obj = G.gen_instance(rng, u, "Root")
-            except Exception:  # noqa: BLE001
-                continue
-            yield {
-                "ctx": ctx, "value": u.to_val(obj), "clazz": "Root", "config": {}, "desc": desc, "_uni": u.modname,
-                "ignore_default_attributes": rng.random() < 0.3,
-                "writer": rng.choice(["native", "lxml"]), "handler": rng.choice(["native", "lxml"]),
-                "indent": None, "xml_declaration": rng.random() < 0.5,
-            }
-
-
-def impl_roundtrip(a):
-    u = uni_of(a)
-    obj = u.from_val(a["value"])
-    try:
-        xml = G.real_serialize(
-            u, obj, writer=a["writer"], ignore_default_attributes=a["ignore_default_attributes"], indent=a["indent"],
-            xml_declaration=a["xml_declaration"],
-        )
-    except Exception as e:  # noqa: BLE001
-        return B.classify_exc(e)
-    return G.real_parse_bytes(u, a["clazz"], xml.encode(), handler=a["handler"], config=a["config"])
-
-
-def classify_rt(a, o):
-    if "ok" in o:
-        return "identity" if o["ok"]["value"] == a["value"] else "changed"
-    return o.get("err", "?")
-
+from bindcases import *  # noqa: F401,F403
+from bindcases import _UNIS  # noqa: F401
 
 CORRS = [
     Corr("bind.generate", gen_generate, impl_generate, compare=cmp_skip_unsupported,
